@@ -78,6 +78,11 @@ def outcome(o):
     return "none" if o["exc"] == ["none"] else "exception"
 
 
+def evs(o):
+    """What the run delivered to the caller, one string per public call (compared as opaque items by the specification)."""
+    return [json.dumps(e, separators=(",", ":")) for e in o.get("ev", [])]
+
+
 def generated(chk, arch, quick):
     """Documents/scripts of the C03/C05/C08 spaces whose fault-free run the specification expects to succeed, loaded from a stream."""
     base = {"Arch": '"%s"' % arch} if arch != "msgpack" else {}
@@ -137,7 +142,7 @@ def fault_leg(chk, tier, arch):
         if i % step == 0 or ("exp" in s and s["exp"] == "exception" and i % 3 == 0):
             chosen.append(s)
             pl.append({"id": s["id"], "arch": arch, "save": bool(s.get("save")), "stream": bool(s.get("stream")), "allocs": p["allocs"],
-                       "doc": s.get("doc", []), "unit": UNITS.get(s.get("enc", "utf8"), (1, False))[0], "be": UNITS.get(s.get("enc", "utf8"), (1, False))[1], "produced": p["produced"], "probe": outcome(p)})
+                       "doc": s.get("doc", []), "unit": UNITS.get(s.get("enc", "utf8"), (1, False))[0], "be": UNITS.get(s.get("enc", "utf8"), (1, False))[1], "produced": p["produced"], "probe": outcome(p), "pev": evs(p)})
     chk.add_cases(len(scen), distinct_keys=((arch, "probe", s["id"]) for s in scen), validated=len(scen))
     pp = os.path.join(vlib.scratch(), "c20_%s_probes.ndjson" % arch)
     vlib.write_ndjson(pp, pl)
@@ -152,7 +157,8 @@ def fault_leg(chk, tier, arch):
     lines = []
     for f, row, o in zip(plan, rows, obs):
         lines.append(json.dumps({"id": "%s/%s/%s/%d" % (arch, row["id"], f["kind"], f["k"]), "kind": f["kind"], "k": f["k"], "n": f["n"], "reject": f["reject"],
-                                 "outcome": outcome(o), "leak": o.get("leak", 0), "hits": o.get("hits", 0), "probe": pl[f["s"] - 1]["probe"]}))
+                                 "outcome": outcome(o), "leak": o.get("leak", 0), "hits": o.get("hits", 0), "probe": pl[f["s"] - 1]["probe"],
+                                 "ev": evs(o), "pev": pl[f["s"] - 1]["pev"]}))
     checked, bad = vlib.validate_traces("Trace_Faults", lines)
     obsby = {json.loads(l)["id"]: (row, o) for l, row, o in zip(lines, rows, obs)}
     for b in bad:
